@@ -10,6 +10,8 @@
                                                      (Topo/MemAttach.v) on the trees right before/after each call
      "synthreq ok n=<requests>" | "synthreq DIFF ..."  model of the synthetic backend (Text/Synthetic.v parser + Topo/SynthBuild.v) vs the
                                                      objects the backend really hands to the core, in order (synthetic sources with insertion tracing)
+     "linuxcpu ok n=<requests>" | "linuxcpu DIFF ..."  model of look_sysfscpu (Topo/LinuxCpu.v + the sysfs parsers of Text/LinuxParse.v) evaluated on
+                                                     the file contents the backend is about to read vs the objects it really hands to the core
      "merge ok" | "merge DIFF"                       model of load-time KEEP_STRUCTURE level merging on the phase-4 tree vs the phase-5 tree
      "removal ok" | "removal DIFF"                   model of hwloc_filter_bridges + remove_empty on the phase-3 tree vs the phase-4 tree
    other lines are echoed *)
@@ -29,6 +31,35 @@ let synth_desc : Stdlib.String.t option ref = ref None
 let synth_obs = ref [] and in_find_parent = ref false and synth_pending = ref false
 let obs_of (d : dobj) = (((d.o_type, d.o_os), (d.o_cs, d.o_nds)), (d.o_lm, d.o_cache_depth))
 let rec int_of_nat = function O -> 0 | S n -> 1 + int_of_nat n
+(* ---- the sysfs view printed by the harness when the Linux backend starts reading the CPU topology ("lcpu ..." lines) ---- *)
+let lcpu_lines : Stdlib.String.t list ref = ref [] and lcpu_view = ref None and lcpu_obs = ref []
+let bytes_of_hex h =
+  if h = "-empty" then [] else
+  Stdlib.List.init (Stdlib.String.length h / 2) (fun i -> n_of_int (int_of_string ("0x" ^ Stdlib.String.sub h (2 * i) 2)))
+let build_view lines =
+  let cfg = Stdlib.Hashtbl.create 8 and online = ref None in
+  let cpus : (int, (bool * (Stdlib.String.t, n list) Stdlib.Hashtbl.t)) Stdlib.Hashtbl.t = Stdlib.Hashtbl.create 64 in
+  let order = ref [] in
+  Stdlib.List.iter (fun l ->
+    match split_on ' ' l with
+    | "lcpu" :: "begin" :: kvs -> Stdlib.List.iter (fun kv -> match split_on '=' kv with [k; v] -> Stdlib.Hashtbl.replace cfg k (v <> "0") | _ -> ()) kvs
+    | ["lcpu"; "online"; h] -> online := Some (bytes_of_hex h)
+    | ["lcpu"; "cpu"; n; t] -> Stdlib.Hashtbl.replace cpus (int_of_string n) (t = "topo=1", Stdlib.Hashtbl.create 32); order := int_of_string n :: !order
+    | ["lcpu"; "f"; n; key; h] -> (match Stdlib.Hashtbl.find_opt cpus (int_of_string n) with Some (_, tb) -> Stdlib.Hashtbl.replace tb key (bytes_of_hex h) | None -> ())
+    | ["lcpu"; "c"; n; j; key; h] -> (match Stdlib.Hashtbl.find_opt cpus (int_of_string n) with Some (_, tb) -> Stdlib.Hashtbl.replace tb ("c" ^ j ^ key) (bytes_of_hex h) | None -> ())
+    | _ -> ()) lines;
+  let flag k = match Stdlib.Hashtbl.find_opt cfg k with Some b -> b | None -> false in
+  let mk n =
+    let (topo, tb) = Stdlib.Hashtbl.find cpus n in
+    let f k = Stdlib.Hashtbl.find_opt tb k in
+    { c_n = n_of_int n; c_topo = topo; c_on = f "on";
+      c_core = f "core"; c_cluster = f "cluster"; c_die = f "die"; c_pkg = f "pkg"; c_book = f "book"; c_drawer = f "drawer";
+      c_core_id = f "core_id"; c_cluster_id = f "cluster_id"; c_die_id = f "die_id"; c_pkg_id = f "pkg_id"; c_book_id = f "book_id"; c_drawer_id = f "drawer_id";
+      c_caches = Stdlib.List.init 10 (fun j -> let g k = f ("c" ^ string_of_int j ^ k) in
+                   { cf_map = g "map"; cf_level = g "level"; cf_type = g "type"; cf_id = g "id"; cf_size = g "size" }) } in
+  { v_old = flag "old"; v_s390 = flag "s390"; v_amdcu = flag "amdcu"; v_knl = flag "knl"; v_caches = flag "caches"; v_dmcg = flag "dmcg";
+    v_online = !online; v_cpus = Stdlib.List.rev_map mk !order }
+let lobs_of (d : dobj) = ((((d.o_type, d.o_os), d.o_cs), (d.o_group_kind, d.o_group_subkind)), (d.o_cache_depth, d.o_cache_type))
 let bytes_of_string s = Stdlib.List.init (Stdlib.String.length s + 1) (fun i -> if i < Stdlib.String.length s then n_of_int (Stdlib.Char.code s.[i]) else n_of_int 0)
 let contains s sub = let n = Stdlib.String.length s and m = Stdlib.String.length sub in let rec go i = i + m <= n && (Stdlib.String.sub s i m = sub || go (i + 1)) in go 0
 let () =
@@ -53,6 +84,10 @@ let () =
               Stdlib.Array.iteri (fun i l -> if contains l "gdontmerge:1" then dm := n_of_int i :: !dm) p.raw_objs;
               p4 := Some (p.pd, !dm)
        | 10 -> p10 := Some p;
+               (if !lcpu_view <> None && not !in_find_parent then
+                  (let h = kv_tbl (split_on ' ' p.raw_head) in
+                   if Stdlib.Hashtbl.find h "insroot" = "0" then
+                     lcpu_obs := lobs_of (Stdlib.List.nth p.pd.t_objs (int_of_string (Stdlib.Hashtbl.find h "ins"))) :: !lcpu_obs));
                (if !synth_desc <> None && not !in_find_parent then
                   let h = kv_tbl (split_on ' ' p.raw_head) in
                   if Stdlib.Hashtbl.find h "insroot" = "0" then
@@ -118,6 +153,12 @@ let () =
                | None -> print_endline "synthreq DIFF model-rejects-description")
           | None -> ());
          synth_desc := None; synth_obs := []; in_find_parent := false;
+         (match !lcpu_view with
+          | Some v ->
+              let (ok, n) = linux_cpu_agrees p.pd.t_filters v (Stdlib.List.rev !lcpu_obs) in
+              print_endline ((if ok then "linuxcpu ok n=" else "linuxcpu DIFF model=") ^ string_of_int (int_of_nat n) ^ " observed=" ^ string_of_int (Stdlib.List.length !lcpu_obs))
+          | None -> ());
+         lcpu_view := None; lcpu_obs := []; lcpu_lines := [];
          (match wf_check p.pd with
           | [] -> print_endline "wf ok"
           | vs -> print_endline ("wf VIOLATION " ^ Stdlib.String.concat " " (Stdlib.List.map (fun (c, i) -> ocaml_of_coq_string c ^ "@" ^ string_of_int (int_of_n i)) vs)));
@@ -130,7 +171,10 @@ let () =
                         | None -> print_endline "totals DIFF tree")
           | None -> ()); p5 := None
        | _ -> ())
-    (fun l -> (if Stdlib.String.length l > 10 && Stdlib.String.sub l 0 10 = "synthdesc " then (synth_desc := Some (Stdlib.String.sub l 10 (Stdlib.String.length l - 10)); synth_obs := []; synth_pending := true)
+    (fun l -> (if Stdlib.String.length l >= 5 && Stdlib.String.sub l 0 5 = "lcpu " then
+                 (if l = "lcpu end" then (lcpu_view := Some (build_view (Stdlib.List.rev !lcpu_lines)); lcpu_obs := []; lcpu_lines := [])
+                  else lcpu_lines := l :: !lcpu_lines));
+              (if Stdlib.String.length l > 10 && Stdlib.String.sub l 0 10 = "synthdesc " then (synth_desc := Some (Stdlib.String.sub l 10 (Stdlib.String.length l - 10)); synth_obs := []; synth_pending := true)
                else if !synth_pending && Stdlib.String.length l >= 10 && Stdlib.String.sub l 0 10 = "config rc=" then
                  (synth_pending := false; if l <> "config rc=0" then synth_desc := None));   (* hwloc_topology_set_synthetic refused the description *)
-              if l = "new rc=0" then (synth_desc := None; synth_obs := []; in_find_parent := false; p1 := None; p5 := None; p3 := None; p4 := None; p10 := None; p12 := None; p14 := None; ins_calls := 0; ins_bad := []; mem_calls := 0; mem_bad := []); print_endline l)
+              if l = "new rc=0" then (lcpu_view := None; lcpu_obs := []; lcpu_lines := []; synth_desc := None; synth_obs := []; in_find_parent := false; p1 := None; p5 := None; p3 := None; p4 := None; p10 := None; p12 := None; p14 := None; ins_calls := 0; ins_bad := []; mem_calls := 0; mem_bad := []); (if not (Stdlib.String.length l >= 5 && Stdlib.String.sub l 0 5 = "lcpu ") then print_endline l))
